@@ -124,13 +124,20 @@ func CheckAddress(addr string, blockHeight int64) (e error) {
 		}
 		return nil
 	}
-	for _, d := range drivers {
-		if !isEnable(blockHeight, d.enableHeight) {
+	// try the drivers in id order (not in map order), so that an address which no driver accepts
+	// always reports the same error: that of the first enabled driver
+	for id := int32(0); id <= MaxID; id++ {
+		d, ok := drivers[id]
+		if !ok || !isEnable(blockHeight, d.enableHeight) {
 			continue
 		}
-		e = d.driver.ValidateAddr(addr)
-		if e == nil {
+		err := d.driver.ValidateAddr(addr)
+		if err == nil {
+			e = nil
 			break
+		}
+		if e == nil {
+			e = err
 		}
 	}
 	checkAddressCache.Add(addr, e)
